@@ -155,6 +155,7 @@ def run(tier, out, model_ok, proof):
     mism = []
     if model_ok:
         g, tcr, mm, mism = treecorr.run_tree(cases)
+        treecorr.placed_check(mm, cases, out)
         for x in mism[:30]:
             out.broken.append({"what": "directive-layer model and implementation disagree: " + x["what"],
                                "detail": {n: bytes.fromhex(h).decode("latin1")[:800] for n, h in x["case"]["files"].items()}})
